@@ -92,6 +92,7 @@ static void on_alarm(int sig)
 static void on_fatal(int sig)
 {
   char msg[64];
+  fflush(out);
   int n = snprintf(msg, sizeof msg, "{\"e\":\"Signal\",\"sig\":%d}\n", sig);
   if (write(fileno(out), msg, n)) {}
   _exit(5);
@@ -548,6 +549,7 @@ int main(int argc, char** argv)
   setvbuf(out, obuf, _IOFBF, sizeof obuf);
   signal(SIGALRM, on_alarm);
   signal(SIGFPE, on_fatal);
+  signal(SIGABRT, on_fatal);
 
   char* line = NULL; size_t cap = 0; ssize_t len;
   int default_log_matches = 1, default_quiet = 0, iter_log = 1;
@@ -670,6 +672,12 @@ int main(int argc, char** argv)
       NEED(3);
       int c = slot(tok[1], MAXSLOT);
       const char* ns = strcmp(tok[2], "-") == 0 ? NULL : tok[2];
+      if (compilers[c]->errors > 0)
+      {
+        /* adding sources after a failed compilation is an API misuse (assert in compiler.c) */
+        fprintf(out, "{\"e\":\"Compile\",\"cid\":%d,\"via\":\"%s\",\"ret\":-1,\"errors\":0,\"warnings\":0,\"diag\":[],\"skipped\":\"compiler has errors\"}\n", c, op);
+        continue;
+      }
       BLOB src = unhex(tok[3]);
       DIAG d = {0, 0, 1};
       fprintf(out, "{\"e\":\"Compile\",\"cid\":%d,\"via\":\"%s\",\"ns\":", c, op);
@@ -695,6 +703,13 @@ int main(int argc, char** argv)
     {
       NEED(2);
       int c = slot(tok[1], MAXSLOT), rr = slot(tok[2], MAXSLOT);
+      if (compilers[c]->errors > 0)
+      {
+        /* calling get_rules after a failed compilation is an API misuse (assert in compiler.c) */
+        rulesets[rr] = NULL;
+        fprintf(out, "{\"e\":\"GetRules\",\"cid\":%d,\"rid\":%d,\"ret\":-1,\"skipped\":\"compiler has errors\"}\n", c, rr);
+        continue;
+      }
       int r = yr_compiler_get_rules(compilers[c], &rulesets[rr]);
       if (r != ERROR_SUCCESS) rulesets[rr] = NULL;
       fprintf(out, "{\"e\":\"GetRules\",\"cid\":%d,\"rid\":%d,\"ret\":%d", c, rr, r);
@@ -829,6 +844,7 @@ int main(int argc, char** argv)
         it.last_error = ERROR_SUCCESS;
         do
         {
+          if (calls > 0) fprintf(out, "{\"e\":\"ScanResume\",\"sid\":%d,\"call\":%d}\n", s, calls + 1);
           r = yr_scanner_scan_mem_blocks(sc, &it);
           calls++;
           if (r == ERROR_BLOCK_NOT_READY)
